@@ -59,7 +59,7 @@ def cases(draw, tier="quick"):
     for (side, idx, name) in subs:
         for end in ("o", "a"):
             for _ in range(draw(st.integers(0, 3))):
-                ops.append(["write", [side, idx], end, draw(st.sampled_from([0, 1, 5, 100, 70000]))])
+                ops.append(["write", [side, idx], end, draw(st.sampled_from([0, 1, 5, 100, 65515, 70000]))])
         cl = draw(st.sampled_from(["none", "o", "a", "both", "both"]))
         if cl in ("o", "both"):
             ops.append(["sclose", [side, idx], "o"])
